@@ -38,6 +38,15 @@ var namedBehaviours = [][]op{
 	{{Op: "fl"}, {Op: "wh", C: 500}},
 	{{Op: "srd"}, {Op: "swd"}, {Op: "wh", C: 200}, {Op: "w"}},
 	{{Op: "efd"}, {Op: "w"}},
+	// std-lib helpers (LogMw!StreamBehNames)
+	{{Op: "wh", C: 202}, {Op: "cp", C: 1}},
+	{{Op: "wh", C: 202}, {Op: "cp", C: 2}},
+	{{Op: "cp", C: 3}},
+	{{Op: "cp", C: 4}, {Op: "w"}},
+	{{Op: "cp", C: 5}},
+	{{Op: "cp", C: 6}},
+	{{Op: "wh", C: 404}, {Op: "cp", C: 7}},
+	{{Op: "cp", C: 8}},
 }
 
 // loopbackBehaviours are the ones a real net/http server and client carry
@@ -50,6 +59,9 @@ var loopbackBehaviours = [][]op{
 	// optional capabilities against the real server's writer: Hijack (the handler answers 299 by hand on the
 	// connection), Flush, deadlines, full duplex
 	namedBehaviours[14], namedBehaviours[14], namedBehaviours[17], namedBehaviours[18], namedBehaviours[19], namedBehaviours[20],
+	// std-lib helpers: io.Copy from the five source kinds, WriteString, Fprintf, ServeContent
+	namedBehaviours[21], namedBehaviours[22], namedBehaviours[23], namedBehaviours[24], namedBehaviours[25],
+	namedBehaviours[26], namedBehaviours[27], namedBehaviours[28],
 }
 
 var someCodes = []int{100, 101, 103, 200, 201, 204, 301, 304, 400, 403, 404, 418, 500, 503, 599, 999}
@@ -66,6 +78,8 @@ func randomOps(rnd *rand.Rand) []op {
 			ops[i] = op{Op: "w"}
 		case k == 3:
 			ops[i] = op{Op: "fl"}
+		case k == 5:
+			ops[i] = op{Op: "cp", C: 1 + rnd.IntN(7)} // (not ServeContent: it insists on writing the header itself)
 		case k == 4 && i == 0:
 			ops[i] = op{Op: "hj", C: 1 + rnd.IntN(3)}
 			if ops[i].C == 1 {
